@@ -153,33 +153,65 @@ func translateFacts(facts []string, call *ssa.Call) []string {
 		}
 		return descValue(args[i], 1)
 	}
+	// a local handed over by address that was assigned exactly once (x, err := f(); g(&x)) is also
+	// described by the value it holds: the fact then reads as it would with the callee's body in place
+	altArg := func(i int) string {
+		if i < 0 || i >= len(args) {
+			return ""
+		}
+		al, ok := args[i].(*ssa.Alloc)
+		if !ok || al.Referrers() == nil {
+			return ""
+		}
+		var only *ssa.Store
+		for _, r := range *al.Referrers() {
+			if st, isSt := r.(*ssa.Store); isSt && st.Addr == ssa.Value(al) {
+				if only != nil {
+					return ""
+				}
+				only = st
+			}
+		}
+		if only == nil || !instrDominates(only, call) {
+			return ""
+		}
+		return descValue(only.Val, 1)
+	}
 	var out []string
-	for _, f := range facts {
-		bad := false
-		g := reParamTok.ReplaceAllStringFunc(f, func(tok string) string {
-			idx := 0
-			if tok == "pr" {
-				if !isMethod {
+	for pass := 0; pass < 2; pass++ {
+		for _, f := range facts {
+			bad := false
+			changed := false
+			g := reParamTok.ReplaceAllStringFunc(f, func(tok string) string {
+				idx := 0
+				if tok == "pr" {
+					if !isMethod {
+						bad = true
+						return tok
+					}
+					idx = 0
+				} else {
+					n := 0
+					fmt.Sscanf(tok[1:], "%d", &n)
+					idx = n
+					if isMethod {
+						idx = n + 1
+					}
+				}
+				d := descArg(idx)
+				if pass == 1 {
+					if a := altArg(idx); a != "" && a != "_" && a != d {
+						d, changed = a, true
+					}
+				}
+				if d == "_" {
 					bad = true
-					return tok
 				}
-				idx = 0
-			} else {
-				n := 0
-				fmt.Sscanf(tok[1:], "%d", &n)
-				idx = n
-				if isMethod {
-					idx = n + 1
-				}
+				return d
+			})
+			if !bad && (pass == 0 || changed) {
+				out = append(out, g)
 			}
-			d := descArg(idx)
-			if d == "_" {
-				bad = true
-			}
-			return d
-		})
-		if !bad {
-			out = append(out, g)
 		}
 	}
 	return out
